@@ -57,6 +57,8 @@ def expected_values(params, v):
             if nm in v and v[nm] is not None:
                 if kd["dop"]["k"] == "struct" and isinstance(v[nm], dict):
                     exp[nm] = expected_values(kd["dop"]["params"], v[nm])
+                elif kd["dop"]["k"] == "mux":
+                    exp[nm] = expected_mux(kd["dop"], v[nm])
                 elif kd["dop"]["k"] in ("static", "dynlen", "eop", "endmarker") and isinstance(v[nm], list):
                     sp = kd["dop"]["s"]["params"]
                     exp[nm] = [expected_values(sp, it) if isinstance(it, dict) else it for it in v[nm]]
@@ -72,6 +74,71 @@ def expected_values(params, v):
         elif k in ("coded", "physconst"):
             exp[nm] = kd["v"]
     return exp
+
+
+def mux_selection(d, v):
+    """(case selected by the caller's value, switch key written) per the ODX rules, or None if v selects nothing"""
+    if isinstance(v, dict) and len(v) == 1:
+        spec, cv = next(iter(v.items()))
+    elif isinstance(v, (list, tuple)) and len(v) == 2:
+        spec, cv = v
+    else:
+        return None
+    if isinstance(spec, str):
+        for c in d["cases"]:
+            if c["name"] == spec:
+                return c, c["lo"], cv
+        return (d["dflt"], 0, cv) if d["dflt"] is not None else None
+    if isinstance(spec, int) and not isinstance(spec, bool):
+        for c in d["cases"]:
+            if c["lo"] <= spec <= c["hi"]:
+                return c, spec, cv
+        return (d["dflt"], spec, cv) if d["dflt"] is not None else None
+    if spec is None and d["dflt"] is not None:
+        return d["dflt"], 0, cv
+    return None
+
+
+def expected_mux(d, v):
+    sel = mux_selection(d, v)
+    if sel is None:
+        return v
+    c, _, cv = sel
+    if c["s"] is None:
+        return [c["name"], {}]
+    return [c["name"], expected_values(c["s"]["params"], cv) if isinstance(cv, dict) else cv]
+
+
+def mux_noncanonical(params, v):
+    """C03 only: a multiplexer value given by number whose switch key is not the one which selecting the case by name
+    writes (the lower limit, 0 for the default case): decoding returns the *name* of the case, the key itself is no
+    value-carrying parameter, so the PDU is not in canonical form"""
+    if not isinstance(v, dict):
+        return False
+    for p in params:
+        kd = p["kind"]
+        if kd["k"] not in ("value", "physconst"):
+            continue
+        if _mux_nc(kd["dop"], v.get(p["name"])):
+            return True
+    return False
+
+
+def _mux_nc(d, v):
+    k = d["k"]
+    if k == "struct":
+        return mux_noncanonical(d["params"], v)
+    if k == "mux":
+        sel = mux_selection(d, v)
+        if sel is None:
+            return False
+        c, key, cv = sel
+        if key != (c["lo"] if "lo" in c else 0):
+            return True
+        return c["s"] is not None and mux_noncanonical(c["s"]["params"], cv)
+    if k in ("static", "dynlen", "eop", "endmarker"):
+        return any(_mux_nc(d["s"], it) for it in (v if isinstance(v, list) else []))
+    return False
 
 
 def roundtrip_exempt(params, v):
@@ -137,6 +204,19 @@ def _dop_exempt(d, v):
         return None
     if k == "struct":
         return roundtrip_exempt(d["params"], v if isinstance(v, dict) else {})
+    if k == "mux":
+        sel = mux_selection(d, v)
+        if sel is None:
+            return None
+        c, key, cv = sel
+        first = next((x for x in d["cases"] if x["lo"] <= key <= x["hi"]), d["dflt"])
+        if first is not c:
+            # the key which is written for the chosen case (its lower limit, 0 for the default case) belongs to another
+            # case: overlapping or empty key ranges, a description which is ambiguous by itself
+            return "multiplexer key of the chosen case belongs to another case"
+        if c["s"] is None:
+            return None
+        return roundtrip_exempt(c["s"]["params"], cv if isinstance(cv, dict) else {})
     if k == "endmarker":
         # an item which happens to start with the termination value ends the field (format ambiguity)
         return "end-marker field"
@@ -166,6 +246,8 @@ def item_consumes(st):
                     return True
             elif d["k"] == "struct" and ((d["bs"] or 0) > 0 or item_consumes(d)):
                 return True
+            elif d["k"] == "mux":
+                return True  # the switch key
     return (st.get("bs") or 0) > 0
 
 
@@ -186,6 +268,9 @@ def _dop_has(d, kinds):
         return d["dct"]["k"] in kinds
     if d["k"] == "struct":
         return has_kind(d["params"], kinds)
+    if d["k"] == "mux":
+        return any(c["s"] is not None and _dop_has(c["s"], kinds)
+                   for c in d["cases"] + ([d["dflt"]] if d["dflt"] is not None else []))
     return _dop_has(d["s"], kinds) or any(_dop_has(d[x], kinds) for x in ("cnt", "tdop") if x in d)
 
 
@@ -251,6 +336,14 @@ def _dop_features(d, acc):
         if d["bs"] is not None:
             acc["byte-size"] = acc.get("byte-size", 0) + 1
         desc_features(d["params"], acc)
+    elif k == "mux":
+        for c in d["cases"] + ([d["dflt"]] if d["dflt"] is not None else []):
+            if c["s"] is not None:
+                _dop_features(c["s"], acc)
+            else:
+                acc["mux-case-without-structure"] = acc.get("mux-case-without-structure", 0) + 1
+            if c.get("lo_open") or c.get("hi_open"):
+                acc["mux-open-limit"] = acc.get("mux-open-limit", 0) + 1
     else:
         _dop_features(d["s"], acc)
 
@@ -425,7 +518,7 @@ def main(pid, argv=None):
                                     except Exception:  # noqa
                                         pass
                         if bad is None and pid == "C03" and dec[0] == 0 and not has_kind(c.params, ("nrc",)) \
-                                and not exempt:
+                                and not exempt and not mux_noncanonical(c.params, e["value"]):
                             # decode -> encode must reproduce the PDU
                             d = cc.unw_value(dec[1])
                             re_enc = cc.impl_encode(c.obj, d, e["req"])
